@@ -101,7 +101,7 @@ static void iokinds_pass(int reps) {
 
 // thread create/exit histories: per-thread FFT state must be released when the thread exits
 static void thread_histories(int count, int burst) {
-    PSet *ps = new PSet(8, 1024, 1, 2, 8, 2, 2, ldexp(1., -20), ldexp(1., -30));
+    PSet *ps = new PSet(8, 1024, 1, 2, 8, 8, 2, ldexp(1., -20), ldexp(1., -30));   // decryptable: (t,basebit) = (8,2)
     TFheGateBootstrappingSecretKeySet *sk = new_random_gate_bootstrapping_secret_keyset(ps->gb);
     LweSample *in = new_gate_bootstrapping_ciphertext_array(2, ps->gb);
     bootsSymEncrypt(in, 1, sk); bootsSymEncrypt(in + 1, 0, sk);
@@ -118,6 +118,25 @@ static void thread_histories(int count, int burst) {
     for (int i = 0; i < count; i++) { std::thread t(body, i); t.join(); out.evaluations++; }
     VH_OP("threads:bursts");
     for (int i = 0; i < count; i += burst) { std::vector<std::thread> th; for (int j = 0; j < burst; j++) th.emplace_back(body, i + j); for (auto &t: th) t.join(); out.evaluations += burst; }
+    // objects that outlive the thread that built them: a key set generated (and its FFT image computed) by a thread that
+    // exits; then enough threads come and go for the C library to recycle and finally unmap the dead thread's stack and
+    // thread-local block; then the key is used from other threads and from the main thread. Any access to the dead
+    // thread's per-thread FFT state is a use-after-free that shows here as SIGSEGV (unmapped) or wrong results.
+    {
+        VH_OP("threads:key-outlives-its-creator");
+        TFheGateBootstrappingSecretKeySet *sk2 = nullptr;
+        std::thread creator([&] { sk2 = new_random_gate_bootstrapping_secret_keyset(ps->gb); }); creator.join();
+        for (int round = 0; round < 3; round++) { std::vector<std::thread> th; for (int j = 0; j < 12; j++) th.emplace_back([&] { volatile char pad[4096]; pad[0] = 1; usleep(1000); }); for (auto &t: th) t.join(); }
+        LweSample *r = new_gate_bootstrapping_ciphertext(ps->gb); int wrong = 0;
+        auto use = [&]() { for (int g = 0; g < 6; g++) { bootsSymEncrypt(in, 1, sk2); bootsSymEncrypt(in + 1, g & 1, sk2); LweSample *rr = new_gate_bootstrapping_ciphertext(ps->gb); bootsNAND(rr, in, in + 1, &sk2->cloud); if (bootsSymDecrypt(rr, sk2) != !(1 && (g & 1))) wrong++; delete_gate_bootstrapping_ciphertext(rr); } };
+        VH_OP("threads:key-outlives-its-creator:use-on-main"); use();
+        VH_OP("threads:key-outlives-its-creator:use-on-thread"); { std::thread u(use); u.join(); }
+        out.evaluations += 12;
+        if (wrong) out.viol("memory:key-unusable-after-its-creating-thread-exited", J().i("wrong_gate_outputs", wrong).i("of", 12));
+        delete_gate_bootstrapping_ciphertext(r);
+        std::thread destroyer([&] { delete_gate_bootstrapping_secret_keyset(sk2); }); destroyer.join();
+        out.cell("threads:key-outlives-its-creator");
+    }
     out.cell("threads:sequence", count); out.cell("threads:bursts", count);
     out.sample(J().s("mode", "thread create/exit histories").i("threads_in_sequence", count).i("burst_size", burst));
     delete_gate_bootstrapping_ciphertext_array(2, in); delete_gate_bootstrapping_secret_keyset(sk); delete ps;
